@@ -26,8 +26,12 @@ Excused == UNION {hist[i].lost : i \in {j \in DOMAIN hist : hist[j].a = "push"}}
 \* D: branches deleted on the remote by the same `git push` (`git push origin :b ...`)
 \* allow: lfs.allowincompletepush for this push - objects available nowhere are then excused (the push may
 \* go through without them), everything that is available must still be uploaded
-Push(S, mode, D, allow) ==
+\* vfail: during this push the server keeps uploads in a staging area and commits an object to its store
+\* only when the client's verify call for it succeeds - and every verify call fails.  Nothing the push
+\* uploads is then stored, so a push that had anything to upload must not succeed.
+Push(S, mode, D, allow, vfail) ==
   /\ mode \in Modes /\ S # {} /\ \A b \in S : br[b] # NoCommit
+  /\ (vfail => ~allow /\ D = {})
   /\ (mode # "git-push" => D = {}) /\ D \cap S = {} /\ \A b \in D : rr[b] # NoCommit
   /\ (mode = "git-push" => \A b \in S : br[b] # rr[b] /\ (rr[b] = NoCommit \/ rr[b] \in Anc(br[b], commits)))   \* fast-forward or new
   /\ (mode = "lfs-push-all" => S = {b \in Branches : br[b] # NoCommit})
@@ -58,7 +62,9 @@ Push(S, mode, D, allow) ==
          have    == server \cup LocalValid
          missing == need \ have
          recov   == missing \cap InWorktree \cap {o \in Oids : local[o] = "absent"}
-         verdict == IF missing = {} THEN "ok" ELSE IF missing = recov THEN "either" ELSE IF allow THEN "incomplete" ELSE "fail"
+         toUpload == (need \cap LocalValid) \ server
+         verdict == IF vfail /\ toUpload # {} THEN "fail"
+                    ELSE IF missing = {} THEN "ok" ELSE IF missing = recov THEN "either" ELSE IF allow THEN "incomplete" ELSE "fail"
          upl     == ((need \cup mayNeed) \cap LocalValid) \ server
      IN \* the specification's own transition: the deterministic cases; "either" takes the successful branch
         /\ server' = IF verdict = "fail" THEN server ELSE IF verdict = "incomplete" THEN server \cup (need \cap LocalValid) ELSE server \cup need
@@ -68,7 +74,7 @@ Push(S, mode, D, allow) ==
                   /\ rt' = [b \in Branches |-> IF b \in S THEN br[b] ELSE IF b \in D THEN NoCommit ELSE rt[b]]
                   /\ everRemote' = everRemote \cup ReachSet({br[b] : b \in S}, commits)
              ELSE UNCHANGED <<rr, rt, everRemote>>
-        /\ Log([a |-> "push", mode |-> mode, refs |-> S, deletes |-> D, allow |-> allow, lost |-> (IF verdict = "incomplete" THEN missing \ recov ELSE {}), verdict |-> verdict, need |-> need, mayNeed |-> mayNeed, missing |-> missing, ambiguous |-> ambiguous,
+        /\ Log([a |-> "push", mode |-> mode, refs |-> S, deletes |-> D, allow |-> allow, vfail |-> vfail, lost |-> (IF verdict = "incomplete" THEN missing \ recov ELSE {}), verdict |-> verdict, need |-> need, mayNeed |-> mayNeed, missing |-> missing, ambiguous |-> ambiguous,
                 mayUpload |-> upl, serverBefore |-> server,
                 liveTracked |-> {b \in Branches : rt[b] # NoCommit /\ rr[b] # NoCommit}, staleTracked |-> {b \in Branches : rt[b] # NoCommit /\ rr[b] = NoCommit},
                 remoteNeeds |-> PtrOids(everRemote', commits) \ (Excused \cup (IF verdict = "incomplete" THEN missing \ recov ELSE {})),
@@ -80,7 +86,7 @@ Next == \/ \E b \in Branches, p \in Paths, blob \in Blobs, g \in Ages : Commit(b
         \/ \E o \in Oids, h \in {"absent", "corrupt"} : DamageLocal(o, h)
         \/ \E b \in Branches : OtherPush(b)
         \/ \E b \in Branches : OtherDelete(b)
-        \/ \E S \in SUBSET Branches, m \in Modes, D \in SUBSET Branches, al \in BOOLEAN : Push(S, m, D, al)
+        \/ \E S \in SUBSET Branches, m \in Modes, D \in SUBSET Branches, al, vf \in BOOLEAN : Push(S, m, D, al, vf)
 Spec == RepoInit /\ [][Next]_vars
 
 RemoteCompleteX == PtrOids(everRemote, commits) \subseteq server \cup Excused
